@@ -22,6 +22,15 @@ func normalize(obj any) (any, error) {
 	case json.Number:
 		return normalizeNumber(obj2)
 
+	case int64:
+		// TOML (and large YAML) integers arrive as int64; JSON and small
+		// YAML integers as int. Use one representation so == works.
+		if obj2 == int64(int(obj2)) {
+			return int(obj2), nil
+		}
+
+		return obj2, nil
+
 	default:
 		return obj2, nil
 	}
